@@ -57,6 +57,17 @@ def uses_of(body, l):
     return out
 
 
+def _reaches_return(body, stmt_uses, depth=4):
+    """one of the uses moves the whole value on, through plain moves, into the return place"""
+    for u3 in stmt_uses:
+        if u3[0] == "stmt" and not u3[3]["p"] and u3[2]["rv"]["r"] == "use" and not u3[2]["d"]["p"]:
+            if u3[2]["d"]["l"] == 0:
+                return True
+            if depth > 0 and _reaches_return(body, [x for x in uses_of(body, u3[2]["d"]["l"]) if x[0] != "drop"], depth - 1):
+                return True
+    return False
+
+
 def analyse_body(F, body):
     """yield (key, loc, what) findings for one body"""
     for bi, t in body.calls():
@@ -121,6 +132,8 @@ def classify(F, body, l, seen):
         elif kind == "ref":
             s = u[2]
             sub = classify(F, body, s["d"]["l"], seen)
+            if sub is not None and sub[0] == "err-arm-ignores-error" and _reaches_return(body, real):
+                sub = None      # only looked at through a reference (`if let Ok(n) = &r`), then handed on whole
             if sub is not None:
                 return sub
             handled = True
@@ -135,9 +148,8 @@ def classify(F, body, l, seen):
             # tuple-of-results matches etc. are handled through the aggregate (stmt) case
             if not errread:
                 # `if let Ok(x) = r { .. }; r` - the result is looked at and then handed on whole: the error is propagated
-                for u2 in real:
-                    if u2[0] == "stmt" and not u2[3]["p"] and u2[2]["rv"]["r"] == "use" and (u2[2]["d"]["l"] == 0 and not u2[2]["d"]["p"]):
-                        errread = True
+                if _reaches_return(body, real):
+                    errread = True
             if not errread:
                 # is the Err arm returning an error of its own? (e.g. `Err(_) => return Err(X)`)
                 return ("err-arm-ignores-error", "matched, but the Err payload is never read: the error is silently replaced or ignored")
